@@ -74,7 +74,8 @@ MUTATIONS = [
     ("C08", "src/readers/fixedstructreader.rs", "            map_tv_pair_fo.insert((tv_pair, fo), fo);", "            map_tv_pair_fo.insert((tv_pair, 0), fo);", "records with equal times overwrite each other again"),
     ("C13", "src/printer/printers.rs", None, None, "skipped: see seeded/C13"),
     ("C12", "src/readers/linereader.rs", None, None, "skipped: see seeded/C12"),
-    ("C05", "src/readers/blockreader.rs", "            block.truncate(size_total);\n", "            let _ = size_total;\n", "lz4 blocks keep their zero-filled tail after a short read"),
+    ("C05", "src/readers/blockreader.rs", "                        size_total += size;\n", "                        size_total += size;\n                        if size > 0 {\n                            size_total = blocksz_u;\n                        }\n",
+     "lz4: one read() per block is taken as a full block again (short reads leave a zero-filled tail)"),
     ("C14", "src/bin/s4.rs", '                "^",\n                CGP_DUR_OFFSET_TYPE,', '                CGP_DUR_OFFSET_TYPE,', "relative filter values are searched, not matched from the start"),
     ("C09", "src/readers/journalreader.rs", "                if rts_filter_before.is_some_and(|em_filter| actual_epoch_usec != em_filter) {", "                if rts_filter_before.is_some() {", "the before bound is exclusive for journals again"),
     ("C10", "src/readers/evtxreader.rs", None, None, "skipped: see seeded/C10"),
